@@ -207,6 +207,18 @@ func statusOracle(run *Run) (string, string) {
 			}
 		}
 	}
+	if out.OK && herr == nil {
+		// receives issued after the clean end was reported: the outcome stays what it was
+		ended := false
+		for _, ev := range append(run.Rets("cr", "recv"), run.Rets("cs", "recv")...) {
+			if ended && ev.Pan == "" && ev.Err != io.EOF {
+				return "failure-after-clean-end", fmt.Sprintf("the handler returned nil and a receive had reported the clean end of the stream; a later receive returned %v", ev.Err)
+			}
+			if ev.Err == io.EOF {
+				ended = true
+			}
+		}
+	}
 	if ok, why := sameStatus(got, want); !ok {
 		cls := "status"
 		if herr != nil {
